@@ -26,3 +26,7 @@ claim("C13", "DESIGN.md 5/C13",
       "Lean 4 program model of every command's backend calls (built from the regenerated decorator stacks + transcribed bodies) with theorems for every verb, shape and fault index (last reply 451, never a success reply; data connection closed once the mark was given, except the proved open-of-file-transfer witness) + exhaustive fault injection at every backend call of every command situation on the real server, call sequences and outcomes compared with the model",
       "fault_contained / fault_closes_data_partial are unbounded (any number of entries/blocks, any k); the injection run is exhaustive over the situation table x every call index x two backends and checks session/other-session usability afterwards.",
       "Trusted: Lean kernel; a backend failure is an exception inside the backend method; in-memory network.")
+claim("C14", "DESIGN.md 5/C14",
+      "Lean 4 decision over the regenerated decorator order of the five nested transfer workers (which cancellation positions are caught by `worker`) with positive theorems and two proved negative witnesses + ABOR injected at every loop iteration of every transfer script on the real server, replies/survival compared with the model, prefix and follow-up oracles",
+      "The theorems are re-decided against the current decorator order on every run; the injection sweep is exhaustive over (transfer kind x size x data-connection timing x every loop iteration) and the worker position is read off the real connection when the server processes the ABOR.",
+      "Trusted: Lean kernel; asyncio cancellation semantics; in-memory network; one transfer at a time.")
